@@ -236,13 +236,13 @@ PREC = {"or": 1, "and": 2, "not": 4, "cmp": 3}
 
 
 def render_expr(rng, e, parent):
-    """parent: 0 top / inside parens / argument, 1 operand of ||, 2 operand of &&, 4 operand of !"""
+    """parent: 0 top / inside parens, 8 function argument, 1 operand of ||, 2 operand of &&, 4 operand of !, 9 comparand"""
     k = e[0]
     if k == "lit": return render_lit(rng, e[1])
     if k in ("rel", "abs"):
         t = ("@" if k == "rel" else "$") + render_segments(rng, e[1], True)
     elif k == "call":
-        t = e[1] + "(" + blank(rng) + (blank(rng) + "," + blank(rng)).join(render_expr(rng, a, 0) for a in e[2]) + blank(rng) + ")"
+        t = e[1] + "(" + blank(rng) + (blank(rng) + "," + blank(rng)).join(render_expr(rng, a, 8) for a in e[2]) + blank(rng) + ")"
     elif k == "cmp":
         t = render_expr(rng, e[2], 9) + blank(rng, 0.5) + e[1] + blank(rng, 0.5) + render_expr(rng, e[3], 9)
         if parent >= 4: return "(" + t + ")"
@@ -262,7 +262,8 @@ def render_expr(rng, e, parent):
         if parent > p or (parent == p + 0.5): return "(" + blank(rng) + t + blank(rng) + ")"
         if parent >= 4: return "(" + t + ")"
         return wrap(rng, t)
-    if parent == 9: return t          # comparable position: no parentheses allowed
+    if parent in (8, 9): return t     # comparable position, or a query / call / literal as function argument: parentheses would make it a
+                                      # logical expression (RFC 9535 2.4.3), admitted for LogicalType parameters only
     return wrap(rng, t)
 
 
